@@ -958,6 +958,18 @@ pub fn apply_disk_fault(tmp: &str, log: &str, verif_seed: u64, w: u64) -> (u64, 
     (files.len() as u64, Some(kind))
 }
 
+/// Environment of one world process of a chain: private temp directory, file log, and - for two
+/// worlds in five - seeded write faults (short write, ENOSPC, EIO) on the files the library
+/// itself opens for writing.
+pub fn chain_env(tmp: &str, log: &str, verif_seed: u64, w: u64) -> Vec<(String, String)> {
+    let mut v = vec![("TMPDIR".to_string(), tmp.to_string()), ("A5SIM_FS_LOG".to_string(), log.to_string())];
+    let z = derive(verif_seed, 0x6677_0000 + w);
+    if z % 5 < 2 {
+        v.push(("A5SIM_FS_FAULT".to_string(), (z % 1_000_000 + 1).to_string()));
+    }
+    v
+}
+
 /// Replay unit of a violation that needs durable state: the worlds of one chain, in order, each
 /// in its own fresh process, sharing one temp directory, with the seeded disk faults in between.
 #[derive(Clone, Debug, Serialize, Deserialize)]
@@ -983,7 +995,7 @@ pub fn run_chain(c: &ChainFile, work_dir: &str) -> Option<(usize, Violation)> {
         let w = c.first_world + i as u64;
         let _ = std::fs::remove_file(&log);
         crate::procs::CHILD_ENV.with(|e| {
-            *e.borrow_mut() = vec![("TMPDIR".to_string(), tmp.clone()), ("A5SIM_FS_LOG".to_string(), log.clone())];
+            *e.borrow_mut() = chain_env(&tmp, &log, c.verif_seed, w);
         });
         let path = format!("{}/chainreplay-world-{}.json", work_dir, w);
         save(&path, f);
@@ -1056,8 +1068,12 @@ pub fn worlds_main(b: &WorldArgs) -> WorldsOut {
                 let log = format!("{}/fslog-{}.txt", b.work_dir, c);
                 for w in first..(first + CHAIN).min(b.worlds) {
                     let _ = std::fs::remove_file(&log);
+                    let env = chain_env(&tmp, &log, b.verif_seed, w);
+                    if env.len() > 2 {
+                        *fs_stats.lock().unwrap().1.entry("worlds_with_write_faults(short write / ENOSPC / EIO on files the library opens)".to_string()).or_insert(0) += 1;
+                    }
                     crate::procs::CHILD_ENV.with(|e| {
-                        *e.borrow_mut() = vec![("TMPDIR".to_string(), tmp.clone()), ("A5SIM_FS_LOG".to_string(), log.clone())];
+                        *e.borrow_mut() = env;
                     });
                     let (f, perm, prefix, variant) = world_file(g, tables, b.verif_seed, w);
                     let path = format!("{}/world-{}.json", b.work_dir, w);
